@@ -43,6 +43,8 @@ LEVEL = {
     "technique": "static analysis: pending-at-pull dataflow, path counting, short-circuit / islice / zip_longest tables by abstract evaluation",
 }
 LEVEL["decided"] += ' (R05.11) the single-source tool tables of R01.12 (items taken and callable invocations per cell); (R05.12) a groupby group the parent has moved past ends without touching the source (R16.1, shared).'
+LEVEL["decided"] += ' End-of-source detections are part of every compared trace (tool tables, islice, zip_longest, merge): an exhausted source is asked again exactly where the counterpart asks (found F12). (R05.13/R05.14/R05.15) groupby histories, tee histories and the merge table with the items taken from the source after every operation.'
+LEVEL["technique"] += '; whole-tool tables and groupby / tee / merge histories by abstract evaluation over an object model (end-of-source detections included)'
 
 TOOLS = c01.PASS_THROUGH + c01.TRANSFORMING
 # look-behind windows are recognised structurally (the held item is yielded together with the newly
